@@ -4,6 +4,8 @@ import absint
 from engines import float_div_sites, kinds_in_type, KIND_FIELDS, kind_of_segment, kind_elements
 from engines import check_required_steps
 from engines import check_complete_iteration, chain_filters
+from expr import Extract, S, C, F, div, show, unknowns
+from expr import equal as expr_equal
 from prov import Prov, params_of, call_atoms
 
 CLAIM = ("(ROLE+KIND) at every production call of InformationContent::set_{gene,omim_disease,orpha_disease} the `total` argument derives from the "
@@ -153,6 +155,40 @@ def run(ck, prog, ctx):
                 ok = c == absint.P or c is None
                 ck.ob("GUARD", "%s/ln/%d" % (b.short, n), ok, "%s: ln argument %s" % (b.short, "proven positive" if ok else "not proven positive (class %s)" % c), where=b.where(site["line"]))
     ck.floor("GUARD", "div/ln sites in the IC computation", nsites, 2)
+
+    # ---- FORMULA: the value computed is -ln(current / total)
+    ck.rule("FORMULA", "the non-constant result of InformationContent::calculate, extracted as an expression over (total, current) and normalised (ln opaque), equals -ln(current/total)")
+    if calc is not None:
+        def leaf(ex, body, kind, obj):
+            if kind == "param":
+                return S({1: "total", 2: "current"}.get(obj[0], "p%d" % obj[0]))
+            if kind == "call":
+                r = obj.callee.res or obj.callee.name or ""
+                if re.search(r"(^|::)(f32_from_usize|usize_to_f32)$", r) and len(obj.args) == 1:
+                    return ex.operand(body, obj.args[0], 0, getattr(ex, "_at", None))
+            return None
+        EX = Extract(prog, pv, leaf)
+        want = ("neg", F("ln", div(S("current"), S("total"))))
+        rets = []
+        for kind, pos, d in pv.defs(calc).get(0, []):
+            e = EX.rvalue(calc, d, 0, pos) if kind == "assign" else EX.call(calc, d, 0, pos)
+            if e[0] != "c" and not (kind == "call" and d.callee.method == "from_residual"):
+                rets.append((d.line, e))
+        if not rets:
+            ck.ob("FORMULA", "calculate", False, "InformationContent::calculate returns only constants: -ln(current/total) is not computed", where=calc.where())
+        for i, (ln_, e) in enumerate(rets):
+            eq = expr_equal(e, want)
+            key = "calculate" if i == 0 else "calculate/%d" % i
+            if eq is None:
+                ck.undecided("FORMULA", key, "result expression %s has leaves that are not recognised (%s)" % (show(e), "; ".join(unknowns(e)[:2])), where=calc.where(ln_))
+            else:
+                ck.ob("FORMULA", key, eq, "InformationContent::calculate returns %s %s the documented -ln(current/total)" % (show(e), "=" if eq else "which is NOT algebraically equal to"), where=calc.where(ln_))
+    else:
+        ck.undecided("FORMULA", "calculate", "private helper InformationContent::calculate not found")
+
+    # ---- the counts reach the formula unchanged: the usize -> f32 helper converts exactly or reports an error
+    from props.shared import check_exact_conversion
+    check_exact_conversion(ck, "GUARD", prog, "f32_from_usize", "the annotation counts")
 
     # ---- K3: all three kinds are computed in the ConnectedTerms -> FullyAnnotated transition
     cic = prog.one(r"^ontology::builder::Builder::<ontology::builder::ConnectedTerms>::calculate_information_content$")
